@@ -1,5 +1,6 @@
 import MpsProofs.Handler
 import MpsProofs.TwoParty
+import MpsProofs.ReplayOrder
 import MpsGen.Session
 /-
   C17 — Handler lifecycle is well-defined (all call sequences) and lock-protected.
@@ -168,6 +169,12 @@ def demoMsg : Msg :=
 
 /-- a running handler exists, it ends with a result after the peer's message, and Stop ends a running one -/
 example : terminal (run (fun b => b) demoScript []) = false := by decide
+/-- The correspondence driver admits an observed verdict when SOME order of replaying the queued messages of a newly
+    entered round produces it (Go ranges over a map there; `Mps.Drv.Handler.acceptO`). The alternatives differ from the
+    model proved about here only in that order: with the id order they ARE the model's `accept`. -/
+theorem replay_order_alternatives_are_the_model (H : Bytes → Bytes) (s : State) (m : Msg) :
+    Mps.Drv.Handler.acceptO H s.sc.ids s m = accept H s m := Mps.Drv.Handler.acceptO_ids H s m
+
 example : (run (fun b => b) demoScript [.accept demoMsg]).result = some 7 := by decide
 example : (run (fun b => b) demoScript [.stop]).err = some .stopped := by decide
 example : (run (fun b => b) demoScript [.accept demoMsg, .stop, .accept demoMsg]).closes = 1 := by decide
